@@ -198,6 +198,7 @@ pub fn gen_spec(r: &mut Rng, opts: &GenOpts) -> RepoSpec {
         pin_targets: Pin { hash: r.bool(), length: r.bool() },
         style: Style::Pretty,
         extra_members: opts.extras,
+        spare_deleg_keys: vec![],
     }
 }
 
